@@ -86,6 +86,7 @@ class MultiscaleMonitor:
         R, C = dmap.shape
         valid = ((mask & INVALID_BITS) == 0) & np.isfinite(dmap)
         dv = np.where(valid, dmap, np.nan)
+        truncated_reported = False
         for r in range(off, rows - off):
             for c in range(off, cols - off):
                 # pixels of the finer level nearer to the edge than the matching window are never searched
@@ -99,6 +100,12 @@ class MultiscaleMonitor:
                                 ok = True
                                 if lo != exact_lo or hi != exact_hi:
                                     ctx.probe("level_user_interval_truncated")
+                                    if level == 0 and not truncated_reported:
+                                        # at full resolution the level's user interval is the user's integer interval
+                                        # itself: nothing fractional to argue about
+                                        truncated_reported = True
+                                        self.v("user_interval_truncated_at_full_resolution", ev, side, pixel=[r, c],
+                                               got=[lo, hi], user=[exact_lo, exact_hi], sig={"level": 0})
                         else:
                             win = dv[RR - off:RR + off + 1, CC - off:CC + off + 1]
                             e_lo = sf * (np.nanmin(win) - marge)
